@@ -99,7 +99,7 @@ CHECKS = {
          "DESIGN.md#c12"),
  "C19": ("E", "exploration",
          "bounded-exhaustive input enumeration with an independent 'genuine singleton spend' predicate, differential re-execution of the rewritten spend, and fingerprint-group consistency",
-         "Fast-forward: for every constructed singleton spend (launcher ids x inner-puzzle styles x 10-13 condition sets x 3-5 amounts x lineages, plus the 2 recorded spends) and every rebase target, fast_forward_singleton succeeds exactly when the harness's own predicate says the spend is genuine; the rewritten solution changes only lineage parent, parent amount and amount, re-runs with exactly the original conditions apart from the two self-assertions (which name the new coin), is accepted by mempool validation on the new coin and creates the same coins; each of 36 single-relation corruptions is refused (87k cases quick, 1.7M thorough). Dedup: for every condition list of <=3 letters over a 67/79-letter alphabet (hint shapes incl. a one-byte hint equal to a following REMARK's image, atom-boundary splits, all signature and message conditions, time locks) in 9 coin/helper scenes (165k lists quick, 2.6M thorough), eligible spends of the same coin with equal fingerprints have identical parsed conditions, and eligibility implies no signature/message condition and created >= consumed.",
+         "Fast-forward: for every constructed singleton spend (launcher ids x inner-puzzle styles x 10-13 condition sets x 3-5 amounts x lineages, plus the 2 recorded spends) and every rebase target, fast_forward_singleton succeeds exactly when the harness's own predicate says the spend is genuine; the rewritten solution changes only lineage parent, parent amount and amount, re-runs with exactly the original conditions apart from the two self-assertions (which name the new coin), is accepted by mempool validation on the new coin and creates the same coins; each of 36 single-relation corruptions is refused (1.7M cases; quick applies the 20 solution/puzzle-side classes on every fourth target, thorough on every target). Dedup: for every condition list of <=3 letters over a 67/79-letter alphabet (hint shapes incl. a one-byte hint equal to a following REMARK's image, atom-boundary splits, all signature and message conditions, time locks) in 9 coin/helper scenes (2.6M lists, both tiers), eligible spends of the same coin with equal fingerprints have identical parsed conditions, and eligibility implies no signature/message condition and created >= consumed.",
          "trusts: mc::sx codec/tree hash, the harness's own curry/uncurry and solution decoder, chia-puzzles 0.20.1 module bytes (own tree hash checked against the published hash), clvmr run_program, letter metadata assigned by construction; the Python wrapper in wheel/ is not exercised",
          "DESIGN.md#c19"),
  "C20": ("E", "exploration",
